@@ -45,7 +45,8 @@ var htmlFrag = []string{"<script", "<a ", "href=", "src=", "style=", "onclick=",
 	"<!DOCTYPE ", "<![cdata[", "[CDATA[", "<p", "<br/>", "a=b", "a='b'", "a=\"b\"", "a=`b`", "<\xe2\x84\xaa", "&#", "&#x",
 	"&#;", "&#x;", "&#1", "&#x1", "java\nscript:", "java\x00script:", "\x01javascript:", "\x7fdata:", "<embed", "<object",
 	"<style", "<link", "<meta", "<base", "<form", "<frame", "<applet", "<body", "<html", "<import", "<isindex", "<xml",
-	"<bgsound", "<blink", "<layer", "<ilayer", "<frameset", "<marquee", "action=", "dataformatas=", "xlink", "XMLNS"}
+	"<bgsound", "<blink", "<layer", "<ilayer", "<frameset", "<marquee", "action=", "dataformatas=", "xlink", "XMLNS",
+	"&Tab;", "&NewLine;", "&colon;", "&lpar;", "&rpar;", "&amp;", "&lt;", "&gt;", "&quot;", "&apos;", "&nbsp;", "&sol;", "&semi;"}
 
 // ---- corpus ----------------------------------------------------------------------------------
 
@@ -383,10 +384,12 @@ var sqlSweepSeeds = []string{"x'41'", "b'01'", "n'a'", "u&'a'", "q'(a)'", "e'a'"
 
 var htmlSweepSeeds = []string{"<a>", "<a b=c>", "<a b='c'>", "<a/b>", "</a>", "<!a>", "<!--a-->", "<?a>", "<%a%>", "<![CDATA[a]]>", "<!doctype>", "a=b", "a b=c",
 	"' a=b", "\" a=b", "` a=b", "<a href=j>", "<a on=1>", "<a onclick=1>", "<a style=1>", "<svg>", "<a xmlns=1>", "x>", "/>", "<a b = c>", "<a b=&#65;>",
-	"<ab c>", "</ab`>", "onclick=1", "x onclick=1>"}
+	"<ab c>", "</ab`>", "onclick=1", "x onclick=1>", "<a href=\"java&Tab;script:alert(1)\">", "<a href=javascript&colon;alert&lpar;1&rpar;>",
+	"<a href='vb&NewLine;script:x'>", "&lt;script&gt;", "<a href=\"?a=1&b=2&c=3\">"}
 
 var unitSweepSeeds = []string{"&#65;", "&#x41;", "&#65", "&#x41", "&#065;", "javascript:", "data:", "vbscript:", "view-source:", "onclick", "script", "style", "href", "xmlns",
-	"xlink:href", "svg", "&#106;avascript:", "j&#x61;vascript:", "on", "iframe"}
+	"xlink:href", "svg", "&#106;avascript:", "j&#x61;vascript:", "on", "iframe", "java&Tab;script:", "vb&NewLine;script:", "javascript&colon;",
+	"data&colon;", "&lt;script&gt;", "&amp;#106;avascript:", "j&amp;vascript:"}
 
 // unicodeTwins: multi-byte sequences that a "best-fit" / normalising change could start treating like the ASCII
 // byte c: the fullwidth form (U+FF00 block), well-known look-alikes of angle brackets, quotes and '=', and the
